@@ -29,6 +29,24 @@ def str_consts(b):
                 yield i, st["place"]["l"], st["rv"]["op"]["str"]
 
 
+def ref_target(b, op, depth=0):
+    """The local a reference operand ultimately points to: `&mut *(&mut _9)` -> ('local', 9)."""
+    if op.get("k") not in ("move", "copy") or depth > 6:
+        return norm(b.expr_op(op))
+    pl = op["place"]
+    l = pl["l"]
+    if pl["p"]:
+        return norm(b.expr_op(op))
+    ds = b.defs.get(l, [])
+    if len(ds) == 1 and ds[0][2] == "rv" and ds[0][3]["k"] == "ref":
+        rp = ds[0][3]["place"]
+        if not rp["p"]:
+            return ("local", rp["l"]) if rp["l"] > b.arg_count else norm(b.expr_local(rp["l"]))
+        if len(rp["p"]) == 1 and rp["p"][0]["k"] == "deref":
+            return ref_target(b, {"k": "copy", "place": {"l": rp["l"], "p": []}}, depth + 1)
+    return norm(b.expr_op(op))
+
+
 def events(cx, crate, b):
     """Token events of body b: dicts {bb, kind, text/expr, stream(local)}."""
     out = []
@@ -39,9 +57,9 @@ def events(cx, crate, b):
         l = last(f["path"])
         if l == "to_tokens" and "ToTokens" in f["path"]:
             out.append({"bb": i, "kind": "hole", "expr": norm(b.expr_op(t["args"][0])),
-                        "stream": norm(b.expr_op(t["args"][1]))})
+                        "stream": ref_target(b, t["args"][1])})
         elif "__private" in f["path"] or "quote::" in f["path"]:
-            stream = norm(b.expr_op(t["args"][0])) if t["args"] else None
+            stream = ref_target(b, t["args"][0]) if t["args"] else None
             if l in ("push_ident", "push_ident_spanned"):
                 s = b.expr_op(t["args"][-1])
                 s = strip(s)
@@ -130,3 +148,98 @@ def strip_deref_calls(e):
 def _after_join(b, arm, bb):
     """bb is dominated by `arm` always (caller checked); kept for clarity."""
     return False
+
+
+def rpo(b):
+    order = []
+    seen = set()
+
+    def dfs(x):
+        st = [(x, iter(b.succs(x)))]
+        seen.add(x)
+        while st:
+            n, it = st[-1]
+            adv = False
+            for y in it:
+                if y not in seen:
+                    seen.add(y)
+                    st.append((y, iter(b.succs(y))))
+                    adv = True
+                    break
+            if not adv:
+                order.append(n)
+                st.pop()
+    dfs(0)
+    order.reverse()
+    return {x: i for i, x in enumerate(order)}
+
+
+def stream_tokens(b, evs, S, order=None, depth=0):
+    """Token list pushed onto TokenStream local S (straight-line quote! segments)."""
+    if order is None:
+        order = rpo(b)
+    mine = [ev for ev in evs if ev.get("stream") == ("local", S)]
+    mine.sort(key=lambda ev: order.get(ev["bb"], 1 << 30))
+    out = []
+    for k, ev in enumerate(mine):
+        if k > 0 and not b.dominates(mine[k - 1]["bb"], ev["bb"]):
+            out.append(("nonlinear",))
+        if ev["kind"] == "ident":
+            out.append(("ident", ev["text"]) if ev["text"] is not None else ("hole_ident", ev["expr"]))
+        elif ev["kind"] == "punct":
+            out.append(("punct", ev["text"]))
+        elif ev["kind"] == "hole":
+            out.append(("hole", ev["expr"]))
+        elif ev["kind"] == "group":
+            inner = ev["inner"]
+            if inner[0] == "local" and depth < 12:
+                out.append(("group", ev["text"], stream_tokens(b, evs, inner[1], order, depth + 1)))
+            elif is_call(inner, "new"):
+                out.append(("group", ev["text"], []))
+            else:
+                out.append(("group", ev["text"], [("hole", inner)]))
+        elif ev["kind"] == "parse":
+            out.append(("parsed", ev["expr"]))
+    return out
+
+
+def show_tokens(toks):
+    out = []
+    for t in toks:
+        if t[0] in ("ident", "punct"):
+            out.append(t[1])
+        elif t[0] == "hole":
+            out.append("#{%s}" % mir.show(t[1]))
+        elif t[0] == "hole_ident":
+            out.append("#ident{%s}" % mir.show(t[1]))
+        elif t[0] == "group":
+            o, c = {"Parenthesis": "()", "Brace": "{}", "Bracket": "[]", "None": "  "}.get(t[1], "??")
+            out.append(o + " " + show_tokens(t[2]) + " " + c)
+        else:
+            out.append("<%s>" % t[0])
+    return " ".join(out)
+
+
+def match_tokens(toks, pattern, binds=None):
+    """Match a token list against a pattern: strings are idents/puncts, ('hole', name) binds/compares
+    a hole expression, ('group', delim, subpattern) recurses.  Returns binds dict or None."""
+    binds = dict(binds or {})
+    if len(toks) != len(pattern):
+        return None
+    for t, p in zip(toks, pattern):
+        if isinstance(p, str):
+            if t[0] not in ("ident", "punct") or t[1] != p:
+                return None
+        elif p[0] == "hole":
+            if t[0] != "hole":
+                return None
+            if p[1] in binds and binds[p[1]] != t[1]:
+                return None
+            binds[p[1]] = t[1]
+        elif p[0] == "group":
+            if t[0] != "group" or t[1] != p[1]:
+                return None
+            binds = match_tokens(t[2], p[2], binds)
+            if binds is None:
+                return None
+    return binds
